@@ -94,6 +94,19 @@ def shouldEscape (c : UInt8) (m : Mode) : Bool :=
     | _ => true
   else true
 
+/-- the byte a `%ab` triple decodes to in mode `m` (`none` = the validation pass of `unescape` fails) -/
+def pctByte (m : Mode) (a b : UInt8) : Option UInt8 :=
+  if isHex a && isHex b then
+    let v := (unhex a <<< 4) ||| unhex b
+    let is25 := a == 50 && b == 53
+    if m == .host && unhex a < 8 && !is25 then none
+    else if m == .zone && !is25 && v != 32 && shouldEscape v .host then none
+    else some v
+  else none
+
+/-- whether a byte other than `%` passes the validation pass of `unescape` in mode `m` -/
+def plainOK (m : Mode) (c : UInt8) : Bool := !((m == .host || m == .zone) && c < 128 && shouldEscape c m)
+
 /-- net/url `unescape` (validation pass and decoding pass fused; `none` = error). -/
 def unescape (m : Mode) : Str → Option Str
   | [] => some []
@@ -101,20 +114,15 @@ def unescape (m : Mode) : Str → Option Str
     if c = 37 then
       match rest with
       | a :: b :: rest' =>
-        if isHex a && isHex b then
-          let v := (unhex a <<< 4) ||| unhex b
-          let is25 := a == 50 && b == 53
-          if m == .host && unhex a < 8 && !is25 then none
-          else if m == .zone && !is25 && v != 32 && shouldEscape v .host then none
-          else match unescape m rest' with
-            | some r => some (v :: r)
-            | none => none
-        else none
+        match pctByte m a b, unescape m rest' with
+        | some v, some r => some (v :: r)
+        | _, _ => none
       | _ => none
-    else if (m == .host || m == .zone) && c < 128 && shouldEscape c m then none
-    else match unescape m rest with
+    else if plainOK m c then
+      match unescape m rest with
       | some r => some (c :: r)
       | none => none
+    else none
 
 def upperHex (n : UInt8) : UInt8 := if n < 10 then 48 + n else 55 + n
 
@@ -160,15 +168,18 @@ def UserInfo.render (u : UserInfo) : Str :=
      | some p => 58 :: escape .userPassword p
      | none => [])
 
+/-- `userinfo@` as `URL.String` writes it -/
+def userText : Option UserInfo → Str
+  | some ui => ui.render ++ [64]
+  | none => []
+
 /-- `URL.String` for the URLs that occur here (no Opaque, no Fragment, non-empty scheme). -/
 def Url.toStr (u : Url) : Str :=
   u.scheme ++ [58] ++
   (if u.omitHost && u.host.isEmpty && u.user.isNone then []
    else
     (if !u.host.isEmpty || !u.path.isEmpty || u.user.isSome then [47, 47] else []) ++
-    (match u.user with
-     | some ui => ui.render ++ [64]
-     | none => []) ++
+    userText u.user ++
     escape .host u.host) ++
   (if !u.epath.isEmpty && u.epath.head? != some 47 && !u.host.isEmpty then [47] else []) ++
   u.epath ++
